@@ -139,11 +139,16 @@ def run_c16(tier, seed, t0):
                     d = json.loads(s)
                     d["id"] = k
                     f.write(json.dumps(d, separators=(",", ":")) + "\n")
-        for ftype in (["f64", "f32"] if n <= 3 else ["f64"]):
-            recs = os.path.join(wd, "rec%d%s.ndjson" % (n, ftype))
-            vlib.vh(["replay-pi", "--file", tuples] + (["--f32"] if ftype == "f32" else []), recs)
+        passes = [("f64", 0, 0, False), ("f32", 0, 0, False)] if n <= 3 else [("f64", 0, 0, False)]
+        # axis-parallel pairs again in non-representable frames (int/d, shifted): the split points must
+        # still be bit-identical to the existing end points / the clamped crossing
+        passes += [("f64", 1010, 0, True), ("f64", 1003, 5, True), ("f64", 1007, -3, True), ("f64", 1049, 11, True), ("f64", 1010, 37, True), ("f32", 1010, 2, True), ("f32", 1003, -7, True)]
+        for (ftype, frame, offset, only_axis) in passes:
+            tag = "%s-fr%d-o%d" % (ftype, frame, offset)
+            recs = os.path.join(wd, "rec%d%s.ndjson" % (n, tag))
+            vlib.vh(["replay-pi", "--file", tuples, "--frame", frame, "--offset", offset] + (["--f32"] if ftype == "f32" else []) + (["--only-axis"] if only_axis else []), recs)
             cfg2 = "SPECIFICATION Spec\nINVARIANT C16_IntersectionStep\nCHECK_DEADLOCK TRUE\n"
-            out2, dt2 = vlib.run_tlc("TracePI.tla", cfg2, os.path.join(wd, "tr%d%s" % (n, ftype)), env={"TRACEFILE": recs}, timeout=3000)
+            out2, dt2 = vlib.run_tlc("TracePI.tla", cfg2, os.path.join(wd, "tr%d%s" % (n, tag)), env={"TRACEFILE": recs}, timeout=3000)
             res2 = vlib.parse_tlc(out2, {"C16_IntersectionStep"})
             if res2["tool_errors"]:
                 raise ToolError("TracePI: %s" % res2["tool_errors"][:3])
@@ -151,21 +156,22 @@ def run_c16(tier, seed, t0):
             if bool(fails) != bool(res2["violated"]):
                 raise ToolError("inconsistent TracePI output")
             rl = vlib.load_sessions(recs)
+            byid = {r["id"]: r for r in rl}
             if not samples:
                 samples = rl[:1] + rl[len(rl) // 2:len(rl) // 2 + 1]
             os.makedirs(os.path.join(vlib.OUT, "replays"), exist_ok=True)
-            for fid in fails[:20]:
-                r = rl[fid - 1]
-                p = os.path.join(vlib.OUT, "replays", "C16-N%d-%s-%d.json" % (n, ftype, fid))
+            for fid in fails[:10]:
+                r = byid[fid]
+                p = os.path.join(vlib.OUT, "replays", "C16-N%d-%s-%d.json" % (n, tag, fid))
                 json.dump(r, open(p, "w"))
                 log("VIOLATION property=C16 replay=%s" % p)
-                log("  a=%s b=%s sa=%s sb=%s code=%s pushed=%s npoints=%s inbox=%s" % (r["a"], r["b"], r["sa"], r["sb"], r["code"], r["pushed"], r["npoints"], r["inbox"]))
+                log("  frame=%d a=%s b=%s sa=%s sb=%s code=%s pushed=%s npoints=%s inbox=%s ev=%s" % (frame, r["a"], r["b"], r["sa"], r["sb"], r["code"], r["pushed"], r["npoints"], r["inbox"], json.dumps(r["ev"][4:])[:200]))
             nviol += len(fails)
             tot += len(rl)
             tot_states += res["distinct"] + res2["distinct"]
             tot_trans += res["generated"] + res2["generated"]
-            per.append({"lattice": "%dx%d" % (n + 1, n + 1), "F": ftype, "tuples": len(rl), "failures": len(fails), "tlc_s": round(dt + dt2, 1)})
-            log("[C16] lattice %dx%d %s: %d argument tuples enumerated by TLC, replayed through possible_intersection, judged: %d failures" % (n + 1, n + 1, ftype, len(rl), len(fails)))
+            per.append({"lattice": "%dx%d" % (n + 1, n + 1), "F": ftype, "frame": frame, "offset": offset, "tuples": len(rl), "failures": len(fails), "tlc_s": round(dt + dt2, 1)})
+            log("[C16] lattice %dx%d %s: %d argument tuples replayed through possible_intersection, judged by TLC: %d failures" % (n + 1, n + 1, tag, len(rl), len(fails)))
             os.remove(recs)
         os.remove(tuples)
     cov = {"states": tot_states, "transitions": tot_trans, "traces_validated_against_impl": tot - nviol, "samples": samples,
